@@ -119,6 +119,16 @@ theorem txLoc_slice (e : TxEnc) (hdr : BlockHeader) (pre post : List Tx) (x : Tx
         (80 + varintSize (pre ++ x :: post).length + (encList (tx e) pre).length)).take ((tx e).enc x).length
       = (tx e).enc x := block_tx_slice e hdr pre post x hh
 
+/-- `PkScriptLocs`: the script of an output is found at offset
+`4 + (2 iff the transaction serializes with the witness marker) + |inputs| + |output count| + |earlier outputs| + 8 +
+|script length prefix|` of `Serialize()`, for every transaction (the marker term is `HasWitness`, which is what
+the repaired `PkScriptLocs` uses — F-C08-g). -/
+theorem pkScriptLocs_slice (v : Nat) (ins : List TxIn) (pre post : List TxOut) (o : TxOut) (wits : List Witness)
+    (lock : Nat) :
+    let t : Tx := (v, ins, pre ++ o :: post, wits, lock)
+    (((tx .witness).enc t).drop (pkScriptLoc t pre o)).take o.2.length = o.2 :=
+  pkScript_slice v ins pre post o wits lock
+
 /-! ### identifiers -/
 
 /-- `TxHash` does not look at witness data -/
